@@ -335,7 +335,13 @@ func genProg(t *rapid.T) progCase {
 
 func genProgOnce(t *rapid.T) progCase {
 	c := progCase{}
-	switch fw.Weighted(t, "kind", []int{42, 12, 16, 14, 4, 12, 12, 16, 16, 8, 8, 8, 24}) {
+	switch fw.Weighted(t, "kind", []int{42, 12, 16, 14, 4, 12, 12, 16, 16, 8, 8, 8, 24, 22, 26, 14}) {
+	case 15:
+		return genUDFCase(t)
+	case 14:
+		return genParallelCase(t)
+	case 13:
+		return genJoinCase(t)
 	case 12:
 		return genComposeCase(t)
 	case 6:
@@ -670,6 +676,9 @@ var frameSignatures = map[string]string{
 	"query.ViewMap.GetWithInternalId": "internal_id_zero_column_header_fatal",         // fixed c963649
 	"query.(*View).group":             "group_by_unknown_field_empty_input_fatal",     // fixed c6f7b20
 	"query.ParseExecuteStatements":    "execute_non_string_statement_fatal",           // fixed 263e9b2
+	"query.joinViews":                 "join_using_repeated_column_negative_capacity_fatal", // fixed 9985959
+	"query.joinViews.func1":           "join_column_ambiguous_in_joined_view_fatal",   // fixed PENDING-fix-1 (prog3_test.go)
+	"query.Update":                    "update_field_of_other_view_same_name_fatal",   // fixed PENDING-fix-2 (prog3_test.go)
 }
 
 // "reached": the built-in itself ran (or rejected its arguments); a name that
@@ -677,6 +686,9 @@ var frameSignatures = map[string]string{
 var notReached = map[string]bool{"E10401": true, "syntax": true}
 
 func checkProg(c progCase) (fw.Outcome, *fw.Violation) {
+	if isDeadlockShape(c) {
+		return checkDeadlockShape(c)
+	}
 	o := fw.Outcome{Classes: []string{"kind=" + c.Kind}}
 	opt := run.Opt{Dir: progScratch(), CaptureOut: c.Capture}
 	if c.Files {
@@ -719,7 +731,7 @@ func checkProg(c progCase) (fw.Outcome, *fw.Violation) {
 			o.Fingerprint = fmt.Sprintf("%s|%s|%s|%s", c.Kind, c.Name, strings.Join(c.Args, ","), outcome)
 			o.Classes = append(o.Classes, "reached")
 		}
-	case "fmtstr", "tablefn", "stmt", "cursor", "flagset", "command", "compose":
+	case "fmtstr", "tablefn", "stmt", "cursor", "flagset", "command", "compose", "join", "parallel", "udf":
 		o.Classes = append(o.Classes, c.Kind+"="+c.Name)
 		if class != "syntax" {
 			o.Fingerprint = fmt.Sprintf("%s|%s|%s|%s", c.Kind, c.Name, strings.Join(c.Args, ","), outcome)
@@ -743,11 +755,14 @@ func TestC19Programs(t *testing.T) {
 	fw.Run(t, fw.Spec[progCase]{
 		ID: "C19", Name: "programs", Quick: 60000, Thorough: 1200000,
 		Gen: genProg, Check: checkProg,
-		Rule: "syntactically valid programs: every name in query.Functions (+NOW, JSON_OBJECT; CALL excluded), query.AggregateFunctions (+LISTAGG, JSON_AGG) and query.AnalyticFunctions, enumerated at run time, called with 0-4 arguments drawn from ~55 boundary values (0, -1, int64 bounds, beyond int64, 1e308, denormal, NaN/Inf as floats and as text, NULL, '', wrong types, datetimes at year 0/10000, malformed JSON/regex/format strings, 100 000-character strings, column references) in plain / DISTINCT / GROUP BY / WITHIN GROUP / OVER (partition, order, ROWS frames) / IGNORE NULLS forms over a 0-8 row temporary table holding boundary cells; the same values in LIMIT, OFFSET, PERCENT, WITH TIES, FETCH, NTILE, NTH_VALUE, LAG/LEAD, frame offsets, cursor FETCH ABSOLUTE/RELATIVE, @@LIMIT_RECURSION with recursive CTEs, @@CPU, @@WAIT_TIMEOUT, REMOVE FROM @@DATETIME_FORMAT, ORDER/GROUP BY constants, JSON_ROW, JSON_TABLE, CASE, operators, PRINTF, TRIGGER ERROR, EXIT, control flow, user functions/aggregates, INSERT/UPDATE/DELETE/ALTER on the temporary table; and SET @@FORMAT to each of 12 output formats x 0-2 write settings (encodings, delimiters, delimiter positions, line breaks, JSON escapes, ...) x 16 column-name shapes (duplicates, periods, empty, control characters, ...) x boundary cells with the output captured. Oracle: as load_data (no FatalError, no escaped panic, returns, documented code, memory stays bounded). non-trivial = a built-in reached with >=1 boundary argument (not 'function does not exist'); distinct by (function, argument classes, outcome) / (clause, classes, outcome) / (format, settings, name shape, outcome)",
+		Rule: "syntactically valid programs: every name in query.Functions (+NOW, JSON_OBJECT; CALL excluded), query.AggregateFunctions (+LISTAGG, JSON_AGG) and query.AnalyticFunctions, enumerated at run time, called with 0-4 arguments drawn from ~55 boundary values (0, -1, int64 bounds, beyond int64, 1e308, denormal, NaN/Inf as floats and as text, NULL, '', wrong types, datetimes at year 0/10000, malformed JSON/regex/format strings, 100 000-character strings, column references) in plain / DISTINCT / GROUP BY / WITHIN GROUP / OVER (partition, order, ROWS frames) / IGNORE NULLS forms over a 0-8 row temporary table holding boundary cells; the same values in LIMIT, OFFSET, PERCENT, WITH TIES, FETCH, NTILE, NTH_VALUE, LAG/LEAD, frame offsets, cursor FETCH ABSOLUTE/RELATIVE, @@LIMIT_RECURSION with recursive CTEs, @@CPU, @@WAIT_TIMEOUT, REMOVE FROM @@DATETIME_FORMAT, ORDER/GROUP BY constants, JSON_ROW, JSON_TABLE, CASE, operators, PRINTF, TRIGGER ERROR, EXIT, control flow, user functions/aggregates, INSERT/UPDATE/DELETE/ALTER on the temporary table; and SET @@FORMAT to each of 12 output formats x 0-2 write settings (encodings, delimiters, delimiter positions, line breaks, JSON escapes, ...) x 16 column-name shapes (duplicates, periods, empty, control characters, ...) x boundary cells with the output captured; joins (prog3_test.go): two operands out of 22 (temporary views with NULL / duplicate / mixed-type keys, zero rows, zero columns, header only, files of four formats, grouped and duplicate-name subqueries, JSON_TABLE, table objects, STDIN, DUAL; aliases l/r, none, or twice the same) x 22 join forms (CROSS, comma, INNER, LEFT/RIGHT/FULL [OUTER], NATURAL x 4, each also with a LATERAL subquery that refers to the left operand) x ON (30 conditions incl. boundary values, subqueries, aggregates, analytic functions, unknown and ambiguous fields, row values) or USING (unknown, repeated, all columns) x 27 uses (SELECT forms, GROUP BY, DISTINCT, analytic functions, UPDATE/DELETE ... FROM of one or both operands, INSERT SELECT, cursor, scalar / IN subquery, FOR UPDATE, CREATE TABLE AS, set operation, join of joins, third table, CTE) with @@CPU 1 or 2..16; programs over the file tables big (330 rows, cells = boundary values) and mid (170 rows) with @@CPU 2..16 so that csvq divides records, groups, partitions and join rows between goroutines: every scalar built-in with column arguments in 24 positions (SELECT, WHERE, ORDER BY, GROUP BY, DISTINCT, DML, ALTER DEFAULT, subqueries, join condition, aggregate / analytic argument, set operations, output), a user-defined function that fails for exactly one record (first, last, at the 80-record boundaries) in 11 positions, and 29 plain shapes (sort + LIMIT/OFFSET boundary, set operations, 2..397 groups / partitions with frames, joins, subquery predicates, recursive CTEs, DML, ALTER, cursors, output formats, the table read as another format); user-defined functions and aggregates (prog4_test.go) whose bodies are programs (35 bodies: DML on views and files, SELECT INTO, cursors, nested / recursive calls, COMMIT / ROLLBACK, PREPARE, flags, TRIGGER ERROR, SOURCE, declarations) called from 28 sites (SELECT clauses, subqueries, cursors, control flow, several goroutines, and inside INSERT / UPDATE / DELETE / REPLACE / ALTER ... DEFAULT). Oracle: as load_data (no FatalError, no escaped panic, returns, documented code, memory stays bounded). non-trivial = a built-in reached with >=1 boundary argument (not 'function does not exist'); distinct by (function, argument classes, outcome) / (clause, classes, outcome) / (format, settings, name shape, outcome)",
 		Assumptions: []string{
 			"integer arguments that determine the size of the result (LPAD/RPAD length, NUMBER_FORMAT/ROUND/ENOTATION precision) are capped at 100 000",
 			"an endless recursive CTE is generated only under @@LIMIT_RECURSION in {0,1,2,1000}",
 			"TRIGGER ERROR / EXIT with a user-chosen code: any code the statement accepts is a documented outcome",
+			"a function body that takes the operation lock is paired only with call sites outside data-changing statements while the known finding dml_in_function_called_from_dml_deadlock is open (pairs left out: measured.excluded_known_dml_in_function_called_from_dml); the pinned case of that finding runs in the real binary with one 12 s limit",
+			"STDIN joined with itself is not generated in joins (a data-changing statement then waits 30 s for its own lock: the documented timeout, known under C05); per-record results of length-like arguments are capped at 300 characters over the 330-row table",
+			"unbounded recursion of user-defined functions is not generated (a program that does not terminate; it ends in the Go runtime's stack-overflow abort)",
 		},
 	})
 }
